@@ -294,6 +294,14 @@ def make_world(kind, case, mixed):
                   request_duration=Q(90, "minute"))
         else:
             W.add(w, "jp", "Job", server=link("sv"), ram_needed=Q(200, "megabyte"), request_duration=Q(90, "minute"))
+            # a second service of the other kind on the same server, with its own job (two services sharing a server)
+            if kind == "video":
+                W.add(w, "svc2", "WebApplication", server=link("sv"))
+                W.add(w, "jb2", "WebApplicationJob", service=link("svc2"))
+            else:
+                W.add(w, "svc2", "VideoStreaming", server=link("sv"))
+                W.add(w, "jb2", "VideoStreamingJob", service=link("svc2"), video_duration=Q(10, "minute"))
+            return _tail(w, ["jb", "jb2"], ["jp", "jb"])
         return _tail(w, ["jb"], ["jp", "jb"])
     return _tail(w, ["jb"], None)
 
